@@ -257,8 +257,29 @@ func (fr *Frame) callAppend(cc *ssa.CallCommon, args []Val, reach string, h Heap
 		}
 	}
 	if !isOne {
-		u.unsupportedAt(reach, "append of more than one element")
-		return []Val{fr.havocOfType(s.Ty, "append", h)}
+		if _, isSlice := t.Ty.Underlying().(*types.Slice); !isSlice || so.bv {
+			u.unsupportedAt(reach, "append of a string or in bit-vector mode")
+			return []Val{fr.havocOfType(s.Ty, "append", h)}
+		}
+		// append(s, t...): the n = len(t) cells behind s are the cells of t as they were before
+		// the call (memmove semantics, so t may overlap s); in place when the capacity suffices,
+		// otherwise in a fresh array that keeps the model-level offset
+		ln, cp, off := app("s_len", s.T), app("s_cap", s.T), app("s_off", s.T)
+		n := tl
+		newLen := u.define("append_len", "Int", iadd(ln, n))
+		inPlace := u.define("append_inplace", "Bool", app("<=", newLen, cp))
+		fresh := fr.newRef(h, "append_arr")
+		newArr := u.define("append_ref", "Int", ite(inPlace, app("s_arr", s.T), fresh))
+		newCap := u.fresh("append_cap", "Int")
+		u.assume(and(app("<=", newLen, newCap), implies(inPlace, eq(newCap, cp)), app("<=", newCap, "72057594037927936")))
+		cur2 := u.comp(h, c, cs)
+		newContents := u.fresh("append_dst", arrSort("Int", so.sortOf(st.Elem())))
+		lo := iadd(off, ln)
+		u.assume(fmt.Sprintf("(forall ((k!a Int)) (! (= (select %s k!a) (ite (and (<= %s k!a) (< k!a (+ %s %s))) (select (select %s %s) (+ %s (- k!a %s))) (select (select %s %s) k!a))) :pattern ((select %s k!a))))",
+			newContents, lo, lo, n, cur, app("s_arr", t.T), app("s_off", t.T), lo, cur, app("s_arr", s.T), newContents))
+		h[c] = u.define(c, cs, sto(cur2, newArr, newContents))
+		res := u.define("append_res", so.sliceSort(), fmt.Sprintf("(mk_%s %s %s %s %s)", so.sliceSort(), newArr, off, newLen, newCap))
+		return []Val{{T: res, Ty: s.Ty, S: so.sliceSort()}}
 	}
 	_ = tl
 	elem := sel(sel(cur, app("s_arr", t.T)), app("s_off", t.T))
